@@ -7,10 +7,10 @@ build_variant() {
       RUSTFLAGS="$HOOK_RUSTFLAGS" CFLAGS="$HOOK_CFLAGS" CARGO_TARGET_DIR=/verif/target/plain \
         cargo build --release --offline -q 2>/verif/target/plain-build.log || { tail -40 /verif/target/plain-build.log; return 1; } ;;
     asan)
-      RUSTFLAGS="$HOOK_RUSTFLAGS -Zsanitizer=address" CC=clang CFLAGS="$HOOK_CFLAGS -fsanitize=address,undefined -fsanitize-trap=undefined -fno-omit-frame-pointer -g" \
+      RUSTFLAGS="$HOOK_RUSTFLAGS -Zsanitizer=address -C link-arg=-Wl,--export-dynamic" CC=clang CFLAGS="$HOOK_CFLAGS -fsanitize=address,undefined -fsanitize-trap=undefined -fno-omit-frame-pointer -g" \
         CARGO_TARGET_DIR=/verif/target/asan cargo +nightly build --release --offline -q --target x86_64-unknown-linux-gnu 2>/verif/target/asan-build.log || { tail -40 /verif/target/asan-build.log; return 1; } ;;
     tsan)
-      RUSTFLAGS="$HOOK_RUSTFLAGS -Zsanitizer=thread" CC=clang CFLAGS="$HOOK_CFLAGS -fsanitize=thread -g" \
+      RUSTFLAGS="$HOOK_RUSTFLAGS -Zsanitizer=thread -C link-arg=-Wl,--export-dynamic" CC=clang CFLAGS="$HOOK_CFLAGS -fsanitize=thread -g" \
         CARGO_TARGET_DIR=/verif/target/tsan cargo +nightly build --release --offline -q -Zbuild-std --target x86_64-unknown-linux-gnu 2>/verif/target/tsan-build.log || { tail -40 /verif/target/tsan-build.log; return 1; } ;;
     *) echo "unknown variant $1"; return 1;;
   esac
